@@ -53,15 +53,11 @@ func Dag(c *core.Ctx, o DagOpts) []*ref.RCell {
 			if i > 0 {
 				refs = []*ref.RCell{nodes[i-1]}
 			}
-		case 2: // wide tree: 4 children when available, consumed in order
-			for k := 0; k < 4; k++ {
-				j := i*4 - (n - 1) // placeholder, replaced below
-				_ = j
-			}
-			if i > 0 {
-				nr := 1 + c.Intn("nrefs", 4)
-				for k := 0; k < nr && k < i; k++ {
-					refs = append(refs, nodes[i-1-k])
+		case 2: // wide tree in heap layout (root created last): logarithmic depth, 4 children per inner node
+			h := n - 1 - i
+			for k := 1; k <= 4; k++ {
+				if ch := 4*h + k; ch < n {
+					refs = append(refs, nodes[n-1-ch])
 				}
 			}
 		case 3: // diamond lattice: two parents share both children of the previous layer
